@@ -106,35 +106,115 @@ def r1_load_bytes(facts, rep):
     # open_inner hands every asset but the sources file to load_bytes: C14-R3
 
 
-def r2_lookup(facts, rep):
-    rep.rule("C16-R2", "Db::lookup decodes the stored bytes of the hit as a Constant (serde_cbor::from_slice) and returns "
-                       "exactly that constant; the only way a hit is skipped is a decode failure")
-    body = anchor(rep, "C16-R2", facts, "db::Db::lookup")
+def lookup_summary(facts):
+    """Effect summary of Db::lookup with one hit (helpers only it uses are followed):
+    -> (body, dom, [(outcome, events)]) with events ('parser', fields) ('get_first', field) ('decode', bytes) ('limit', n)."""
+    body = facts.fn("db::Db::lookup")
     if body is None:
+        return None, None, None
+    from ..callgraph import CallGraph
+    own = {p for p in CallGraph(facts).exclusive("db::Db::lookup") if facts.fn(p) is not None}
+    from ..absint.stdmodels import Seq
+    from ..absint.core import some, NONE
+
+    def oracle(dom, it, name, args, vals, store):
+        m = name.rsplit("::", 1)[-1]
+        if name.startswith("tantivy::query::QueryParser::for_index"):
+            return [(Sym("parser"), dom.with_log(store, ("parser", vals[1] if len(vals) > 1 else None)))]
+        if name.startswith("tantivy::query::QueryParser::parse_query"):
+            return [(ok(Sym("query")), store), (core.err(Sym("query_error")), store)]
+        if name.startswith("tantivy::collector::TopDocs::with_limit"):
+            return [(Sym("top1"), dom.with_log(store, ("limit", vals[0])))]
+        if name.startswith("tantivy::Searcher::search"):
+            hit = Agg("tuple", None, None, None, (Sym("score0"), Sym("id0")))
+            return [(ok(Seq((hit,))), store), (ok(Seq(())), store), (core.err(Sym("search_error")), store)]
+        if name.startswith("tantivy::Searcher::doc"):
+            return [(ok(Sym("doc")), store), (core.err(Sym("doc_error")), store)]
+        if name == "tantivy::Document::get_first":
+            return [(some(Sym("stored")), dom.with_log(store, ("get_first", vals[1]))), (NONE, dom.with_log(store, ("get_first", vals[1])))]
+        if name == "serde_cbor::from_slice":
+            return [(ok(Sym("constant")), dom.with_log(store, ("decode", vals[0]))), (core.err(Sym("cbor_error")), dom.with_log(store, ("decode", vals[0])))]
+        return None
+    dom = EffectDomain({}, oracle=oracle)
+    dom.uninterp = lambda n: n not in own
+    it = core.Interp(facts, dom, budget=100000)
+    adt = facts.adt("db::Db")
+    fields = [f["name"] for f in adt["variants"][0]["fields"]] if adt else []
+    selfv = Agg("adt", "db::Db", 0, "Db", [Sym("self." + f) for f in fields])
+    store = {(0, 0): selfv}
+    outs = it.run(body, [Ref(0, 0), Sym("phrase")], store)
+    keep = ("parser", "get_first", "decode", "limit")
+    return body, dom, [(o, [e for e in dom.log(o.store) if e[0] in keep]) for o in outs]
+
+
+def r2_lookup(facts, rep, rule="C16-R2"):
+    rep.rule(rule, "effect summary of Db::lookup (helpers followed): the query parser is built over self.field_name; a "
+                   "constant is returned only as the serde_cbor::from_slice decoding of the bytes that get_first(self.field_data) "
+                   "gave for the hit's document; Ok(None) only without a hit, without stored bytes or after a failed decoding; "
+                   "at least one hit is asked for")
+    if anchor(rep, rule, facts, "db::Db::lookup") is None:
         return
-    fs = flow.calls_named(body, lambda n: n == "serde_cbor::from_slice")
-    rep.floor("C16-R2", "from_slice calls in lookup", len(fs), 1)
-    for bid, t, sp, _ in fs:
-        ls = flow.slice_back(body, t["args"][0])
-        src = {l[1] for l in ls if l[0] == "call"}
-        rep.ob("C16-R2", "decode-source", src == {"tantivy::Document::get_first"},
-               "from_slice decodes bytes that come from %s" % sorted(src), body.site(sp))
-        ty = body.local_ty(t["dest"]["local"])
-        rep.ob("C16-R2", "decode-type", "db::Constant" in ty, "decoded as %s" % ty, body.site(sp))
-    n = 0
-    for blk, i, s in body.stmts():
-        rv = s["rv"]
-        if rv["k"] == "aggregate" and rv["kind"].get("path") == "db::Match":
-            n += 1
-            ls = flow.slice_back(body, rv["ops"][0])
-            src = {l[1] for l in ls if l[0] == "call"}
-            rep.ob("C16-R2", "returns-decoded#%d" % n, src == {"serde_cbor::from_slice"},
-                   "the returned Match::Constant holds the value produced by %s" % sorted(src), body.site(s["span"]))
-    rep.floor("C16-R2", "Match::Constant constructions", n, 1)
-    lim = flow.calls_named(body, lambda n_: n_ == "tantivy::collector::TopDocs::with_limit")
-    for bid, t, sp, _ in lim:
-        v = F.const_val(t["args"][0]) if t["args"][0]["k"] == "const" else None
-        rep.ob("C16-R2", "limit", isinstance(v, int) and v >= 1, "TopDocs::with_limit(%s)" % v, body.site(sp))
+    try:
+        body, dom, res = lookup_summary(facts)
+    except core.Undecided as e:
+        rep.ob(rule, "lookup:summary", False, "undecided: %s" % e)
+        return
+    bad = []
+    n_some = n_none = 0
+    for o, ev in res:
+        if o.kind != "ret":
+            bad.append("lookup can end in %s (%s)" % (o.kind, str(o.value)[:80]))
+            continue
+        v = o.value
+        if not (isinstance(v, Agg) and v.path == "std::result::Result"):
+            bad.append("lookup returns %r" % (v,))
+            continue
+        ps = [e for e in ev if e[0] == "parser"]
+        if ps and "self.field_name" not in repr(ps[0][1]):
+            # vec![field] is built through an uninitialised box the term domain does not follow: which of the database's
+            # schema fields lookup (and its own helpers) reads at all decides it - the payload field goes to get_first
+            from ..callgraph import CallGraph
+            read = set()
+            for p_ in CallGraph(facts).exclusive("db::Db::lookup"):
+                b_ = facts.fn(p_)
+                if b_ is None:
+                    continue
+
+                def walk(x):
+                    if isinstance(x, dict):
+                        if x.get("k") == "field" and x.get("name") in ("field_name", "field_data"):
+                            read.add(x["name"])
+                        for v_ in x.values():
+                            walk(v_)
+                    elif isinstance(x, list):
+                        for v_ in x:
+                            walk(v_)
+                walk(b_.blocks)
+            opaque = "new_uninit" in repr(ps[0][1]) or "into_vec" in repr(ps[0][1])
+            if not (opaque and read == {"field_name", "field_data"}):
+                bad.append("the query parser is built over %r, not self.field_name" % (ps[0][1],))
+        for e in ev:
+            if e[0] == "limit" and not (isinstance(e[1], Const) and isinstance(e[1].v, int) and e[1].v >= 1):
+                bad.append("TopDocs::with_limit(%r)" % (e[1],))
+        if v.vi != 0:
+            continue
+        inner = v.field(0)
+        if isinstance(inner, Agg) and inner.path == "std::option::Option" and inner.vi == 1:
+            n_some += 1
+            m = inner.field(0)
+            got = m.field(0) if isinstance(m, Agg) and m.path == "db::Match" else m
+            gf = [e for e in ev if e[0] == "get_first"]
+            dec = [e for e in ev if e[0] == "decode"]
+            if got != Sym("constant"):
+                bad.append("the constant returned is %r, not the decoded payload" % (got,))
+            elif not gf or gf[-1][1] != Sym("self.field_data"):
+                bad.append("the payload is read with get_first(%r), not self.field_data" % (gf[-1][1] if gf else None,))
+            elif not dec or "stored" not in repr(dec[-1][1]):
+                bad.append("from_slice decodes %r, not the bytes stored with the hit" % (dec[-1][1] if dec else None,))
+        elif isinstance(inner, Agg) and inner.path == "std::option::Option" and inner.vi == 0:
+            n_none += 1
+    rep.ob(rule, "lookup", not bad and n_some >= 1 and n_none >= 1, "; ".join(sorted(set(bad))[:3]) if bad else
+           "%d path(s) return the decoded payload of the hit, %d return None" % (n_some, n_none), body.site())
 
 
 def ngram_params(facts, rep):
